@@ -297,6 +297,98 @@ static void f8_render (uint64_t idx) {
 static int f8_ninputs (uint64_t idx) { return 3 * 4; }
 static pinput f8_input (uint64_t idx, int i) { static const int64_t n[] = {0, 1, 2, 5}, av[] = {0, 7, -1}; pinput p = {av[i % 3], n[i / 3], -1, 0, 0}; return p; }
 
+/* =============================== F9: inlining (callee x caller features) =============================== */
+static const char *F9_PT[] = {"i64", "i8", "u16", "u32", "d", "blk"};          /* parameter type */
+static const char *F9_RT[] = {"i64", "i32", "u8", "i64, d"};                    /* result type(s) */
+static const int F9_PAD[] = {0, 40, 60, 190, 215};                              /* callee size padding around the two inlining thresholds */
+typedef struct { int al, rets, pt, rt, kind, pad;  int inl, loop, resmem, own, sites; } f9cfg;
+static int f9_npad (int th) { return th ? 5 : 1; }
+static uint64_t f9_count (int th) { return 5ull * 3 * 6 * 4 * 3 * f9_npad (th) * 2 * 2 * 2 * 3 * 2; }
+static f9cfg f9_decode (uint64_t idx) {
+  extern int progfam_thorough; f9cfg c;
+  c.sites = idx % 2; idx /= 2; c.own = idx % 3; idx /= 3; c.resmem = idx % 2; idx /= 2; c.loop = idx % 2; idx /= 2; c.inl = idx % 2; idx /= 2;
+  c.pad = idx % f9_npad (progfam_thorough); idx /= f9_npad (progfam_thorough); c.kind = idx % 3; idx /= 3; c.rt = idx % 4; idx /= 4; c.pt = idx % 6; idx /= 6; c.rets = idx % 3; idx /= 3; c.al = (int) idx;
+  return c;
+}
+static void f9_render (uint64_t idx) {
+  f9cfg c = f9_decode (idx); const char *pt = F9_PT[c.pt];
+  ptl = 0; S ("%s", PRELUDE);
+  /* ---- callee ---- */
+  if (c.pt == 5) S ("p_g: proto %s, blk:24(p0), i64:n\ng: func %s, blk:24(p0), i64:n\n", F9_RT[c.rt], F9_RT[c.rt]);
+  else S ("p_g: proto %s, %s:p0, i64:n\ng: func %s, %s:p0, i64:n\n", F9_RT[c.rt], pt, F9_RT[c.rt], pt);
+  S ("  local i64:t, i64:u, i64:al, i64:al2, i64:w, d:dv\n");
+  if (c.al == 1) S ("  alloca al, 16\n");
+  if (c.pt == 4) S ("  mov t, 9\n  dbgt G1, p0, 1.0\n  mov t, 7\nG1:\n");
+  else if (c.pt == 5) S ("  mov t, i64:(p0)\n  add t, t, i64:16(p0)\n  mov i64:8(p0), 99\n  add t, t, i64:8(p0)\n");
+  else S ("  mul t, p0, 3\n  add t, t, 1\n");
+  if (c.al == 2) S ("GA:\n  alloca al, 32\n");
+  if (c.al == 3) S ("  and u, n, 31\n  add u, u, 8\n  alloca al, u\n");
+  if (c.al == 4) S ("  alloca al, 8\n  alloca al2, 24\n  mov i64:16(al2), 5\n");
+  if (c.al) S ("  mov i64:(al), t\n");
+  for (int i = 0; i < F9_PAD[c.pad]; i++) S ("  add w, t, %d\n", i);
+  if (c.kind == 1) S ("  call p_e1, e1, t, t\n");
+  if (c.kind == 2) { S ("  ble GR, n, 0\n  sub u, n, 1\n");
+    if (c.pt == 5) S ("  call p_g, g, w%s, blk:24(p0), u\n", c.rt == 3 ? ", dv" : ""); else S ("  call p_g, g, w%s, p0, u\n", c.rt == 3 ? ", dv" : "");
+    S ("  add t, t, w\nGR:\n"); }
+  if (c.al) S ("  add t, t, i64:(al)\n");
+  if (c.al == 4) S ("  add t, t, i64:16(al2)\n");
+  const char *r2 = c.rt == 3 ? ", 2.5" : "";
+  if (c.rets == 0) S ("  ret t%s\n", r2);
+  else if (c.rets == 1) S ("  bgt G2, t, 100\n  ret t%s\nG2:\n  add t, t, 5\n  ret t%s\n", r2, r2);
+  else S ("  ret t%s\nGC:\n  add t, t, 1\n  ret t%s\n", r2, r2);
+  S ("endfunc\n");
+  /* ---- caller ---- */
+  S ("f: func i64, i64:a, i64:b, p:m, p:q, d:x, d:y\n  local i64:r, i64:r0, i64:k, i64:oa, i64:n2, d:d0\n  mov r, 0\n  and n2, b, 3\n");
+  if (c.own) S ("  alloca oa, 32\n");
+  if (c.own == 1) S ("  mov i64:(oa), a\n  mov i64:24(oa), b\n");
+  if (c.loop) S ("  mov k, 3\nLOOP:\n");
+  for (int site = 0; site <= c.sites; site++) {
+    const char *res = c.resmem ? "i64:40(q)" : "r0"; char arg[32];
+    if (c.pt == 4) snprintf (arg, sizeof arg, "%s", site ? "y" : "x"); else if (c.pt == 5) snprintf (arg, sizeof arg, "blk:24(m)"); else snprintf (arg, sizeof arg, "%s", site ? "b" : "a");
+    S ("  %s p_g, g, %s%s, %s, n2\n", c.inl ? "inline" : "call", res, c.rt == 3 ? ", d0" : "", arg);
+    if (c.resmem) S ("  mov r0, i64:40(q)\n");
+    S ("  mul r, r, 5\n  add r, r, r0\n");
+    if (c.rt == 3) S ("  dmov d:48(q), d0\n");
+  }
+  if (c.loop) S ("  sub k, k, 1\n  bgt LOOP, k, 0\n");
+  if (c.own == 1) S ("  add r, r, i64:(oa)\n  add r, r, i64:24(oa)\n");
+  if (c.pt == 5) S ("  add r, r, i64:8(m)\n"); /* the callee's write to its block copy must not be visible */
+  S ("  ret r\n"); end_func ();
+}
+static int f9_ninputs (uint64_t idx) { return 6 * 3; }
+static pinput f9_input (uint64_t idx, int i) {
+  static const int64_t av[] = {0, 1, -1, 0x1ff80, 0x80008080ll, 33}; static const int64_t bv[] = {0, 2, 0x10003};
+  pinput p = {av[i % 6], bv[i / 6], -1, (i % 2) ? 0.5 : 2.5, 1.25}; return p;
+}
+
+/* =============================== F10: link-time branch rewrites =============================== */
+static const char *F10_CC[] = {"beq", "bne", "blt", "bge", "ublt", "ubge", "bles", "ubgts"};
+static const int F10_CHAIN[] = {1, 2, 31, 32, 33, 40};
+static uint64_t f10_count (int th) { return 8 * 4 + 12 + 6 * 3 + 4; }
+static void f10_render (uint64_t idx) {
+  begin_func (""); S ("  mov r, 5\n");
+  if (idx < 32) { int cc = idx % 8, v = (int) (idx / 8);
+    switch (v) {
+    case 0: S ("  %s L1, a, b\nL1:\n  add r, r, 1\n  ret r\n", F10_CC[cc]); break;                               /* branch to the next insn */
+    case 1: S ("  %s L1, a, b\nLU:\nL1:\n  add r, r, 1\n  ret r\n", F10_CC[cc]); break;                          /* ... through an unused label */
+    case 2: S ("  %s L1, a, b\n  jmp L2\nL1:\n  add r, r, 1\nL2:\n  ret r\n", F10_CC[cc]); break;                 /* bcc L1; jmp L2; L1: */
+    default: S ("  %s L1, a, b\n  jmp L2\nL2:\nL1:\n  add r, r, 1\n  ret r\n", F10_CC[cc]);                        /* bcc L1; jmp L2; L2: L1: */
+    } }
+  else if (idx < 44) { static const char *B[] = {"bt", "bf", "bts", "bfs"}; static const char *V[] = {"0", "1", "4294967296"}; int i = (int) idx - 32;
+    S ("  %s L1, %s\n  add r, r, 10\nL1:\n  add r, r, 1\n  ret r\n", B[i % 4], V[i / 4]); }
+  else if (idx < 62) { int i = (int) idx - 44, n = F10_CHAIN[i % 6], v = i / 6;
+    if (v == 0) S ("  jmp C0\n"); else if (v == 1) S ("  bne C0, a, b\n  ret r\n"); else S ("  and r1, a, 1\n  switch r1, C0, C%d\n", n - 1);
+    S ("CE:\n  add r, r, 100\n  ret r\n");
+    for (int k = 0; k < n; k++) S ("C%d:\n  jmp %s%.0d\n", k, k + 1 < n ? "C" : "CE", k + 1 < n ? k + 1 : 0);
+    /* note: "%.0d" prints nothing for 0 */ }
+  else { int i = (int) idx - 62;
+    if (i == 0) S ("  ret r\nD1:\n  jmp D2\nD2:\n  jmp D1\n");                               /* jump cycle in dead code */
+    else if (i == 1) S ("  bne D1, a, b\n  ret r\nD1:\n  jmp D2\nD3:\n  add r, r, 7\n  ret r\nD2:\n  jmp D3\n");
+    else if (i == 2) S ("  jmp D1\nD1:\n  jmp D2\nD2:\n  bne D1, a, a\n  ret r\n");
+    else S ("  bt D1, a\n  bf D1, a\n  add r, r, 1000\nD1:\n  ret r\n"); }
+  end_func ();
+}
+
 int progfam_thorough;
 static const family FAMILIES[] = {
   {"F1a-ext-chains", f1a_count, f1a_render, in_intgrid_n, in_intgrid},
@@ -312,6 +404,8 @@ static const family FAMILIES[] = {
   {"F5-fp", f5_count, f5_render, f5_ninputs, f5_input, f5_mask},
   {"F6-pressure", f6_count, f6_render, f6_ninputs, f6_input},
   {"F8-loops-memory", f8_count, f8_render, f8_ninputs, f8_input},
+  {"F9-inlining", f9_count, f9_render, f9_ninputs, f9_input},
+  {"F10-branch-rewrites", f10_count, f10_render, in_intgrid_n, in_intgrid},
 };
 #define NFAM ((int) (sizeof (FAMILIES) / sizeof (FAMILIES[0])))
 #endif
